@@ -203,15 +203,24 @@ theorem C07_nil_continues (b : Beh) (errTy : Ty) (fin n : Node) (rest : List Nod
   simp only [specNodes, hk, callFn, hm, Bool.false_eq_true, ↓reduceIte]
   rw [if_neg (by rw [hok]; exact Bool.false_ne_true)]
 
-/-- static part: a failing fallible static injector skips the remaining static injectors -/
+/-- static part: a failing fallible static injector skips the remaining static injectors: none of
+    them is called (the trace ends with this injector's call), their types are zero, the literal
+    values listed after it are in place -/
 theorem C07_static_fail_skips_rest (b : Beh) (n : SNode) (rest : List SNode) (down : Env) (st : St)
-    (hf : n.fallible = true)
+    (hl : n.lit = none) (hf : n.fallible = true)
     (hfail : isErr ((callStatic b n (n.ins.map down.rd) st).1.getD n.errIdx (zeroV 0)) = true) :
     specStatic b (n :: rest) down st =
-      (((down.zero (laterOuts rest)).set n.outs (callStatic b n (n.ins.map down.rd) st).1),
+      (applyLitsE rest ((down.zero (laterOuts rest)).set n.outs (callStatic b n (n.ins.map down.rd) st).1),
        (callStatic b n (n.ins.map down.rd) st).2) := by
-  simp only [specStatic, hf, Bool.true_and]
+  simp only [specStatic, hl, hf, Bool.true_and]
   rw [if_pos hfail]
+
+/-- a literal value is in effect from its listed position on: the static injectors listed before it
+    do not see it (C01 / C05 within the static part) -/
+theorem C05_literal_takes_effect_at_its_position (b : Beh) (n : SNode) (x : Val) (rest : List SNode) (down : Env) (st : St)
+    (hl : n.lit = some x) :
+    specStatic b (n :: rest) down st = specStatic b rest (down.set n.outs [x]) st := by
+  simp only [specStatic, hl]
 
 /-- … and what it returned (its error, retyped to `error`) stays visible downstream, whatever the
     skipped injectors would have provided -/
